@@ -147,7 +147,7 @@ class Rewriter:
             bo = mm.end() - 1
             bc = match_close(m, bo)
             attr = re.sub(r"\s+", " ", self.t[mm.start():bc + 1])
-            if re.match(r"#\[(pin|allow|cfg_attr|inline|must_use|error|from|doc|derive|non_exhaustive|pin_project|pinned_drop|track_caller)\b", attr):
+            if re.match(r"#\[(pin|allow|cfg_attr|inline|must_use|error|from|source|doc|derive|non_exhaustive|pin_project|pinned_drop|track_caller)\b", attr):
                 e = bc + 1
                 # remove following whitespace up to and including one newline if attr is alone on the line
                 ls = self.t.rfind("\n", 0, mm.start()) + 1
@@ -245,11 +245,15 @@ class Rewriter:
             unp = "|".join(re.escape(f) for f in sorted(self.unpinned))
             t, k = re.subn(r"\bthis\.(%s)\.as_mut\(\)" % unp, r"(&mut self.\1).as_mut()", t)
             n += k
-        t, k = re.subn(r"\bthis\.([A-Za-z_][A-Za-z0-9_]*)\.as_mut\(\)", r"(&mut self.\1)", t)
+        t, k = re.subn(r"\bthis\.([A-Za-z_][A-Za-z0-9_]*)\s*\.as_mut\(\)", r"(&mut self.\1)", t)
         n += k
         t, k = re.subn(r"\bthis\.([A-Za-z_][A-Za-z0-9_]*)", r"(&mut self.\1)", t)
         n += k
         t, k = re.subn(r"\bself\.(?:as_mut\(\)\.)?project\(\)\.([A-Za-z_][A-Za-z0-9_]*)", r"(&mut self.\1)", t)
+        n += k
+        # R6 (nested struct projection, additive): a projected field that is itself a pin_project *struct* is
+        # projected again, `(&mut self.f).project().g` -> `(&mut self.f.g)`
+        t, k = re.subn(r"\(&mut self\.([A-Za-z_][A-Za-z0-9_]*)\)\s*\.project\(\)\s*\.([A-Za-z_][A-Za-z0-9_]*)", r"(&mut self.\1.\2)", t)
         n += k
         if re.search(r"\bthis\b", mask(t)) or re.search(r"\.project(?:_replace|_ref)?\(", mask(t)):
             raise Unsupported("unsupported construct: pin projection outside R6 (enum projection / project_replace) in %s" % self.what)
@@ -264,13 +268,15 @@ class Rewriter:
             nonlocal n
             args = mm.group(1).strip()
             ret = (mm.group(2) or "").strip()
+            if ret == "()":  # `fn(B) -> ()`: the unit return type carries no type parameter
+                ret = ""
             parts = [a for a in [args, ret] if a]
             n += 1
             if len(parts) == 1:
                 return "PhantomData<%s>" % parts[0]
             return "PhantomData<(%s)>" % ", ".join(parts)
 
-        self.t = re.sub(r"PhantomData<\s*fn\(([^()]*)\)\s*(?:->\s*([A-Za-z0-9_:<>, ]+?))?\s*>(?=[,\s)}>;])", rep, self.t)
+        self.t = re.sub(r"PhantomData<\s*fn\(([^()]*)\)\s*(?:->\s*(\(\)|[A-Za-z0-9_:<>, ]+?))?\s*>(?=[,\s)}>;])", rep, self.t)
         self.note("R12", n)
 
     # R13 ------------------------------------------------------------
@@ -287,7 +293,19 @@ class Rewriter:
         self.r6_struct_projection(None)
         self.r12_phantom_fn()
         self.r13_ctor_as_fn()
+        self.r14_extern_root()
         return self.t
+
+    # R14 ------------------------------------------------------------
+    def r14_extern_root(self):
+        """`::http::X` / `::hyper::X` (path rooted at an extern crate) -> `http::X`: the single-file unit has
+        no extern crates, the prelude's stand-in module tree carries the crate's name.  Fires only where
+        the text uses the rooted form."""
+        m = mask(self.t)
+        hits = [mm.start() for mm in re.finditer(r"(?<![A-Za-z0-9_>:])::(?=(?:http|hyper)::)", m)]
+        for a in reversed(hits):
+            self.t = self.t[:a] + self.t[a + 2:]
+        self.note("R14", len(hits))
 
 
 # ----------------------------------------------------------------------------
@@ -549,6 +567,15 @@ def apply_fn_spec(text: str, spec: FnSpec, what: str, lost=None):
         if re.search(r"\b(assume|admit)\s*\(", mask(ltxt)):
             raise Unsupported("assume/admit in loop contract of " + what)
         ins.append((lbo, "\n" + ltxt.rstrip() + "\n"))
+        # `//@ loop k :: iter=NAME` names the ghost iterator of a `for` loop (`for p in NAME: e`): Verus
+        # ghost syntax only, the executed loop is unchanged; invariants can then speak about `NAME.cur`
+        itn = spec.opts.get("loop_iter", {}).get(k)
+        if itn:
+            hm = re.match(r"for\b.*?\bin\s+", bm[lps[k]:lbo], re.S)
+            if hm:
+                ins.append((lps[k] + hm.end(), itn + ": "))
+            else:
+                lost.append("lost anchor: loop %d in %s is not a `for` loop (iter=%s)" % (k, what, itn))
     cls = closures_in(bm, 0, len(bm))
     for k, (head, ens) in spec.closures.items():
         if k >= len(cls):
@@ -659,6 +686,11 @@ class Unit:
         self.rewrites = {}
         self.functions = []  # unit-level fn names that carry contracts
         self.degraded = {}  # fn name -> lost hint anchors
+        self.stub = set()
+        self.nohints = set()
+        self.stubbed = {}   # fn key -> reason (body not verified: its obligations are undecided)
+        self.fn_lines = {}  # fn key -> (first line, last line) of the emitted text, 1-based
+        self.fn_has_hints = {}
 
     def emit(self, text: str, origin):
         for ln in text.split("\n"):
@@ -672,11 +704,13 @@ class Unit:
 OBL_RE = re.compile(r"//#\s*([A-Za-z0-9_.\-]+)\s*\[([A-Z0-9, ]+)\]\s*(sufficient-only)?")
 
 
-def build_unit(unit_name: str, reach: bool = False, mutate=None) -> Unit:
+def build_unit(unit_name: str, reach: bool = False, mutate=None, stub=None, nohints=None) -> Unit:
     path = os.path.join(VX, "units", unit_name + ".vxu")
     with open(path) as f:
         raw = f.read().split("\n")
     u = Unit(unit_name)
+    u.stub = set(stub or ())        # fn keys emitted as external_body stubs (signature + contract, no body)
+    u.nohints = set(nohints or ())  # fn keys whose statement-anchored hints are dropped
     i = 0
     n = len(raw)
 
@@ -759,6 +793,9 @@ def build_unit(unit_name: str, reach: bool = False, mutate=None) -> Unit:
                         cur = ("exit",)
                     elif k2 == "loop":
                         cur = ("loop", d2.split()[1])
+                        mo_it = re.search(r"::\s*iter=([A-Za-z_][A-Za-z0-9_]*)", d2)
+                        if mo_it:
+                            spec.opts.setdefault("loop_iter", {})[int(d2.split()[1])] = mo_it.group(1)
                     elif k2 in ("before", "after"):
                         cur = (k2, d2.split(None, 1)[1])
                     elif k2 == "closure":
@@ -831,6 +868,17 @@ def emit_plain(u: Unit, kind, fpath, name, opts):
             t = ("pub exec const %s: [u8; %d] ensures %s@ == seq![%s] { [%s] }"
                  % (name, len(bs), name, arr, arr))
             rw.note("R11")
+        elif "exec_ensures" in opts:
+            # R11b: `const NAME: T = init;` whose initialiser calls exec functions (a dual-mode const may
+            # not) -> `exec const NAME: T ensures <contract text> { init }`.  The initialiser tokens are
+            # unchanged and Verus checks the ensures clause against them.
+            mm = re.match(r"(?s)((?:pub\s+)?)const\s+([A-Za-z0-9_]+)\s*:\s*(.*?)\s*=\s*(.*);\s*$", t.strip())
+            if not mm:
+                raise Unsupported("unsupported construct: const %s is not of the form `const N: T = e;`" % name)
+            if re.search(r"\b(assume|admit)\s*\(", opts["exec_ensures"]):
+                raise Unsupported("assume/admit in contract of const " + name)
+            t = "%sexec const %s: %s\n    ensures %s\n{\n    %s\n}" % (mm.group(1), mm.group(2), mm.group(3), opts["exec_ensures"], mm.group(4))
+            rw.note("R11b")
     if "attr" in opts:
         pre += opts["attr"] + "\n"
     u.emit("// ---- extracted: %s  [%s] ----" % (what, ", ".join(rw.applied)), ("spec", "marker"))
@@ -880,9 +928,30 @@ def emit_fn(u: Unit, fpath, impl_pat, name, spec: FnSpec, reach: bool, mutate):
         raise ScanError("fn %s has no body" % name)
     text = src.text(it.start, it.end)
     what = "fn %s%s (%s)" % ((re.sub(r"\s+", " ", header) + " :: ") if header else "", name, fpath)
+    key = fn_key(header, spec.opts.get("as", name))
+    line0 = len(u.lines) + 1
+    u.fn_has_hints[key] = bool(spec.before or spec.after or spec.exit.strip())
     rw = Rewriter(text, what)
     rw.unpinned = set(x.strip() for x in spec.opts.get("unpinned", "").split(",") if x.strip())
-    t = rw.common()
+    try:
+        t = rw.common()
+    except Unsupported as e:
+        # a construct outside the rewrite table appeared in this fn: keep its contract for the callers,
+        # its own obligations become undecided (never a violation)
+        u.stubbed[key] = str(e)
+        t = None
+    if key in u.stub and key not in u.stubbed:
+        u.stubbed[key] = "body rejected by the Verus front end"
+    if key in u.stubbed:
+        emit_stub(u, text, header, spec, what, key, rw)
+        u.fn_lines[key] = (line0, len(u.lines))
+        u.items.append({"kind": "fn", "name": name, "impl": header, "file": fpath, "rewrites": ["STUBBED: " + u.stubbed[key]],
+                        "sha": hashlib.sha256(text.encode()).hexdigest()[:12], "contracted": bool(spec.spec.strip()),
+                        "emitted_name": spec.opts.get("as", name), "stubbed": True})
+        return
+    if key in u.nohints:
+        u.degraded.setdefault(spec.opts.get("as", name), []).append("hints dropped: they no longer compile against the current body")
+        spec.before, spec.after, spec.exit = [], [], ""
     # R10b: associated types `type X = Y;` of a trait impl.  When the trait is dropped (R10) every
     # `Self::X` in the fn text is replaced by its definition Y taken from the same impl block; when the
     # trait is kept they are emitted inside the impl.  Additive: fires only if the text mentions `Self::X`
@@ -936,9 +1005,58 @@ def emit_fn(u: Unit, fpath, impl_pat, name, spec: FnSpec, reach: bool, mutate):
         u.emit("}", ("repo", what))
     else:
         u.emit(t, ("repo", what))
+    u.fn_lines[key] = (line0, len(u.lines))
     u.items.append({"kind": "fn", "name": name, "impl": header, "file": fpath, "rewrites": rw.applied,
                     "sha": hashlib.sha256(text.encode()).hexdigest()[:12],
                     "contracted": bool(spec.spec.strip()), "emitted_name": spec.opts.get("as", name)})
+
+
+def fn_key(header, emitted_name: str) -> str:
+    """`Owner::name` - Owner is the type an impl block is for ('' for free fns)"""
+    if not header:
+        return emitted_name
+    h = header
+    if " for " in h:
+        h = "impl " + h.split(" for ", 1)[1]
+    mm = re.match(r"impl(?:<[^{]*?>)?\s+([A-Za-z_][A-Za-z0-9_:]*)", re.sub(r"^impl<[^>]*(?:<[^>]*>[^>]*)*>", "impl", h))
+    owner = mm.group(1).split("::")[-1] if mm else "?"
+    return owner + "::" + emitted_name
+
+
+def emit_stub(u, text, header, spec, what, key, rw):
+    """signature + contract of the fn, body replaced: callers are still checked against the contract"""
+    srw = Rewriter(text, what)
+    m = mask(text)
+    bo = find_body_open(m, 0)
+    sig = text[:bo]
+    srw.t = sig
+    srw.r2_attrs_comments()
+    srw.r3_visibility()
+    srw.r5_pin_erasure()
+    srw.r14_extern_root() if hasattr(srw, "r14_extern_root") else None
+    sig = srw.t
+    if spec.opts.get("as"):
+        sig = re.sub(r"\bfn\s+[A-Za-z_][A-Za-z0-9_]*", "fn " + spec.opts["as"], sig, count=1)
+    if spec.spec.strip():
+        sig = name_return(sig.rstrip(), spec.opts.get("ret", "r"))
+    out = "#[verifier::external_body]\n" + sig.rstrip()
+    if spec.spec.strip():
+        out += "\n" + spec.spec.rstrip() + "\n"
+    out += "{ unimplemented!() }"
+    u.emit("// ---- STUBBED (body not verified: %s): %s ----" % (u.stubbed[key], what), ("spec", "marker"))
+    if header is not None:
+        hrw = Rewriter(header, what)
+        hrw.r3_visibility()
+        h = hrw.t
+        if " for " in h and spec.opts.get("keep_trait") != "1":
+            h = r10_inherent(h)
+        if "impl_header" in spec.opts:
+            h = spec.opts["impl_header"]
+        u.emit(h + " {", ("stub", what))
+        u.emit(indent(out, "    "), ("stub", what))
+        u.emit("}", ("stub", what))
+    else:
+        u.emit(out, ("stub", what))
 
 
 def indent(t: str, pre: str) -> str:
